@@ -301,9 +301,46 @@ def _reload(ctx, world, net, cm, mon, hist, rng, commit_some, held, inflight, la
         ctx.count('reload.inflight_notifications', len(older) + len(to_send))
     if inflight:
         world.network.observers.append(observer)
+    # second injection point: the moment reload_all releases the lock of its notification buffer (end of the replay of buffered
+    # notifications) - a notification arriving exactly then must be processed normally, not put into the drained buffer
+    late_threads = []
+    reload_thread = threading.current_thread()
+    real_lock = cm._buffered_notifications_lock
+
+    class BufferLockProxy:
+        def acquire(self, *a, **k):
+            return real_lock.acquire(*a, **k)
+
+        def release(self):
+            real_lock.release()
+            if inflight and threading.current_thread() is reload_thread and not late_threads:
+                commit_some(1)
+                batch, net.pending = net.pending, []
+
+                def run():
+                    for n in batch:
+                        net.deliver(n)
+                th = threading.Thread(target=run, daemon=True)
+                late_threads.append(th)
+                th.start()
+                th.join(0.3)  # correct code: the thread now waits for the MDIB lock held by reload_all; it is joined afterwards
+                ctx.count('reload.buffer_lock_release_injections')
+
+        def __enter__(self):
+            self.acquire()
+            return self
+
+        def __exit__(self, *a):
+            self.release()
+    cm._buffered_notifications_lock = BufferLockProxy()
     try:
         cm.reload_all()
     finally:
+        cm._buffered_notifications_lock = real_lock
+        for th in late_threads:
+            th.join(60)
+            if th.is_alive():
+                ctx.not_decided('late delivery thread blocked')
         if inflight:
             world.network.observers.remove(observer)
     ctx.count('reload.inflight' if inflight else 'reload.plain')
@@ -333,7 +370,8 @@ def run(ctx: core.Ctx):
     core.fanout(ctx, MODULE, 'dispatch', jobs, timeout=3000)
     ctx.floor('monitor.evaluations', 1500)
     for name, n in (('deliver.stale', 20), ('deliver.duplicate', 20), ('deliver.dropped', 10), ('deliver.swap', 20), ('reload.inflight', 5),
-                    ('reload.inflight_notifications', 10), ('mirror.final_comparisons', 16)):
+                    ('reload.inflight_notifications', 10), ('mirror.final_comparisons', 16),
+                    ('reload.buffer_lock_release_injections', 5)):
         ctx.floor(name, n)
 
 
